@@ -50,7 +50,14 @@ def recv (vm : VM) (fn meth : String) : Option Id :=
   if fn = "r.focused." ++ meth then some vm.s.focused else find vm.ids fn
 
 def bindId (vm : VM) (x : String) (w : Id) : VM :=
-  { vm with ids := (x, w) :: (x ++ ".CaptureEvent", w) :: (x ++ ".HandleEvent", w) :: vm.ids }
+  { vm with ids := (x, w) :: (x ++ ".CaptureEvent", w) :: (x ++ ".HandleEvent", w) ::
+      (x ++ ".w", w) :: (x ++ ".w.CaptureEvent", w) :: (x ++ ".w.HandleEvent", w) :: vm.ids }
+
+/-- A list of widgets: a local (the path snapshot), or the mouse handler's hit list `r.lastHits`, read
+    when the expression is evaluated (a hit result is represented by its widget `.w`; its coordinates
+    play no role in the dispatch). -/
+def evList (vm : VM) (n : String) : Option (List Id) :=
+  if n = "r.lastHits" then some (vm.s.lastHits.map (·.w)) else find vm.lists n
 
 def phaseOf : Expr → Option Phase
   | .var "TargetPhase" => some .target
@@ -63,7 +70,7 @@ def evInt (vm : VM) : Expr → Option Int
   | .int n => some (n : Int)
   | .bin "-" a b => do let x ← evInt vm a; let y ← evInt vm b; pure (x - y)
   | .bin "+" a b => do let x ← evInt vm a; let y ← evInt vm b; pure (x + y)
-  | .arg (.call (.var "len")) (.var l) => (find vm.lists l).map (fun x => (x.length : Int))
+  | .arg (.call (.var "len")) (.var l) => (evList vm l).map (fun x => (x.length : Int))
   | _ => none
 
 def evBool (vm : VM) : Expr → Option Bool
@@ -74,6 +81,7 @@ def evBool (vm : VM) : Expr → Option Bool
   | .un "!" a => (evBool vm a).map (fun x => !x)
   | .bin "!=" (.var x) (.var "nil") => find vm.flags x
   | .bin "==" (.var x) (.var "nil") => (find vm.flags x).map (fun b => !b)
+  | .bin "==" a b => do let x ← evInt vm a; let y ← evInt vm b; pure (decide (x = y))
   | .bin ">=" a b => do let x ← evInt vm a; let y ← evInt vm b; pure (decide (x ≥ y))
   | .bin ">" a b => do let x ← evInt vm a; let y ← evInt vm b; pure (decide (x > y))
   | .bin "<" a b => do let x ← evInt vm a; let y ← evInt vm b; pure (decide (x < y))
@@ -103,8 +111,15 @@ def atom (e : EOracle) (fuel : Nat) (ev : Ev) (vm : VM) (l : Line) : Res :=
     | _, _ => none
   | .exprS, .arg (.call (.var "v0.handleCommand")) (.var c), _ =>
     (find vm.cmds c).map (fun cmd => ({ vm with s := eHandleCommand e fuel vm.s cmd }, .norm))
+  | .assign, .var "r.mouse", .un "&" (.var "v1") =>
+    match ev with
+    | .mouse col row => some ({ vm with s := { vm.s with mouse := some (col, row) } }, .norm)
+    | _ => none
+  | .define, .var x, .arg (.arg (.call (.var "r.update")) (.var "v0")) (.var "r.lastFrame") =>
+    let r := eMouseUpdate e fuel vm.s vm.s.lastFrame
+    some ({ vm with s := r.1, flags := (x, r.2) :: vm.flags }, .norm)
   | .define, .var x, .index (.var l) i =>
-    match find vm.lists l, evInt vm i with
+    match evList vm l, evInt vm i with
     | some p, some iv => if iv < 0 then none else (p[iv.toNat]?).map (fun w => (bindId vm x w, .norm))
     | _, _ => none
   | .define, .var x, a => (evInt vm a).map (fun v => ({ vm with ints := (x, v) :: vm.ints }, .norm))
@@ -154,7 +169,7 @@ def exec (e : EOracle) (fuel : Nat) (ev : Ev) : Stmt → Nat → VM → Res
     | some false => exec e fuel ev el f vm
   | .loop c body post, f, vm => loopN (fun vm => evBool vm c) (exec e fuel ev body) (exec e fuel ev post) f vm
   | .rangeOver _ v (.var l) body, f, vm =>
-    match find vm.lists l with
+    match evList vm l with
     | none => none
     | some ws => rangeIds v (exec e fuel ev body f) ws vm
   | _, _, _ => none
@@ -166,5 +181,9 @@ def runFocusHandleEvent (body : Stmt) (e : EOracle) (fuel : Nat) (s : St) (ev : 
   | some (vm, .ret b) => some (vm.s, b)
   | some (vm, _) => some (vm.s, false)
   | none => none
+
+/-- `mouseHandler.handleEvent(app, mouse)` run from its body. -/
+def runMouseHandleEvent (body : Stmt) (e : EOracle) (fuel : Nat) (s : St) (col row : Int) (lf : Nat) : Option (St × Bool) :=
+  runFocusHandleEvent body e fuel s (.mouse col row) lf
 
 end VaxisModel.Model.VxfwInterp
